@@ -89,11 +89,11 @@ def c04_jobs(tier):
             jobs.append(J('root', 'H_C04_rank', [n, m]))
     if q:
         for lo in (0, 42, 85, 124):
-            jobs.append(J('root', 'H_C04_maurer', [8967, lo, lo + 3], timeout_ms=120000))
+            jobs.append(J('root', 'H_C04_maurer', [8967, lo, lo + 3], timeout_ms=120000, job_timeout_s=2400))
     else:
         for n in (8967, 8970, 8974):
             for lo in range(0, 128, 8):
-                jobs.append(J('root', 'H_C04_maurer', [n, lo, lo + 7], timeout_ms=120000))
+                jobs.append(J('root', 'H_C04_maurer', [n, lo, lo + 7], timeout_ms=120000, job_timeout_s=5400))
     return jobs
 
 
